@@ -565,9 +565,10 @@ class DEVSSimulator(Simulator[TIME], Generic[TIME]):
                  **kwargs) -> SimEventInterface:
         """schedule a methodCall at a relative duration. The execution 
         time is thus simulator.simulator_time + delay."""
-        if delay < 0:
+        time = self._simulator_time + delay
+        if not time >= self._simulator_time:
             raise DSOLError("cannot schedule event in the past")
-        return self.schedule_event(SimEvent(self._simulator_time + delay,
+        return self.schedule_event(SimEvent(time,
                  target, method, priority, **kwargs))
 
     def schedule_event_abs(self, time, target, method: str,
